@@ -115,6 +115,10 @@ impl CacheCtx {
                 self.cache.evict_entries();
                 json!({"op": "evict", "k": 0, "g": 0, "res": "ok", "vg": 0})
             }
+            "c_clear" => {
+                self.cache.clear();
+                json!({"op": "clear", "k": 0, "g": 0, "res": "ok", "vg": 0})
+            }
             other => panic!("unknown cache op {other}"),
         }
     }
